@@ -264,6 +264,14 @@ func MasterMain(c *Check, ctx *Ctx, verifDir string, unitFilter string) int {
 	if nw > len(todo) {
 		nw = len(todo)
 	}
+	if c.UnitTimeout == 0 {
+		// every unit is a finite enumeration that normally takes seconds to a few minutes: one that is still
+		// running after this generous limit is a call that does not return (reported against the property)
+		c.UnitTimeout = 30 * time.Minute
+		if ctx.Thorough() {
+			c.UnitTimeout = 4 * time.Hour
+		}
+	}
 	self, _ := os.Executable()
 	results := make([]*Result, len(units))
 	var mu sync.Mutex
